@@ -82,11 +82,17 @@ def ncalls_valid(tr):
 def mon_c03(tr):
     if tr.get("exc") and tr["exc"][0] == "LoopGuard":
         return ("non-termination", "optimize() did not terminate: " + tr["exc"][1])
+    initd = [e for e in tr.get("events", []) if e[0] == "init_done"]
+    if initd and "options0" in tr:
+        # the budget clause does not need a result: target calls are counted also when optimize() ends with an exception
+        b0, nfs0, n0 = tr["options0"]["max_fun_evals"], tr["options0"]["noise_final_samples"], len(tr["calls"])
+        if initd[0][1]["fc"] <= b0 and nfs0 >= 0 and n0 > b0:
+            return ("budget", f"{n0} target calls exceed max_fun_evals={b0} (initial design used {initd[0][1]['fc']})"
+                              + (f"; optimize() then ended with {tr['exc'][0]}" if tr.get("exc") else ""))
     if "result" not in tr:
         return None
     r, o0, fin = tr["result"], tr["options0"], tr["final"]
     budget = o0["max_fun_evals"]
-    initd = [e for e in tr["events"] if e[0] == "init_done"]
     fc_init = initd[0][1]["fc"] if initd else 0
     n = len(tr["calls"])
     nfs_user = o0["noise_final_samples"]
